@@ -180,7 +180,10 @@ NaturalVariants(pname, f) ==
     [] OTHER -> {}
 \* input set-ups that select other code paths of the same entry point (all faults apply to them)
 SetupVariants(pname) ==
-  CASE pname = "kriging" -> {"std", "moving"}
+  \* "nolocator": naming convention asked not to touch the roles (flag_locator = false)
+  CASE pname = "kriging" -> {"std", "moving", "nolocator"}
+    [] pname = "xvalid" -> {"std", "nolocator"}
+    [] pname = "migrate" -> {"std", "nolocator"}
     [] pname = "kriging_extdrift" -> {"std", "expand"}     \* "expand": dbin lacks the external drift, _preprocess migrates it
     [] pname = "anam_transform" -> {"std", "by_name"}      \* "by_name": entry point designating the variable by its name
     [] OTHER -> {"std"}
